@@ -1,7 +1,7 @@
 (* Built-in functions of the JSRef realm (the subset the generator grammar uses), the initial state,
    [[Call]] / [[Construct]], and the knot that turns the open-recursion steps into an interpreter. *)
 From Coq Require Import ZArith NArith PArith List Bool String Floats.SpecFloat.
-From JSRef Require Import Float Syntax Values Static Ops Interp Machine.
+From JSRef Require Import Float Syntax Values Static Ops Promises Interp Machine.
 Import ListNotations.
 Open Scope m_scope.
 
@@ -135,6 +135,71 @@ Definition obj_to_string (tv : value) : M value :=
       let bt := builtin_tag st l in
       do tag <- o_get self l (KSym SYM_TOSTRINGTAG) (VObj l);;
       ret (VStr (S "[object " ++ (match tag with VStr t => t | _ => bt end) ++ S "]"))
+  end.
+
+(* ---- promises (27.2.3 - 27.2.5) *)
+Definition invoke_then (p : value) (args : list value) : M value :=
+  do th <- get_v self p (KStr s_then);;
+  do st <- get_state;;
+  if is_callable st th then o_call self th p args else type_error.
+
+Definition promise_obj (pid : N) : M value := do p <- the_promise pid;; ret (VObj (p_obj p)).
+
+(* SpeciesConstructor(promise, %Promise%) restricted to the intrinsic: the `constructor` lookup is performed (observable) *)
+Definition promise_species (l : loc) (tv : value) : M unit :=
+  do c <- o_get self l (KStr s_constructor) tv;;
+  match c with
+  | VUndef => ret tt
+  | VObj cl => if Pos.eqb cl L_Promise then ret tt else unsupported 987%N
+  | _ => type_error
+  end.
+
+(* Promise.all / Promise.race on the intrinsic constructor; [race] selects the combinator *)
+Definition promise_combinator (race : bool) (tv : value) (iterable : value) : M value :=
+  match tv with
+  | VObj cl =>
+      if negb (Pos.eqb cl L_Promise) then unsupported 986%N else
+      do pp <- new_promise L_PromiseProto;;
+      do fns <- create_resolving (fst pp);;
+      let reject_with (e : value) : M value := do _ <- o_call self (snd fns) VUndef [e];; ret (VObj (snd pp)) in
+      catchm
+        (do presolve <- o_get self cl (KStr (S "resolve")) tv;;
+         do st0 <- get_state;;
+         if negb (is_callable st0 presolve) then type_error else
+         do itnx <- get_iterator self iterable;;
+         let '(it, nx) := itnx in
+         do vals <- new_obj (Some L_ArrayProto) OArray [(KStr s_length, PData (VNum fzero) true false false)];;
+         do cnt <- new_obj None OOrdinary [(KStr (S "n"), data (VNum (of_Z 1)))];;
+         do _ <- (fix go (fuel : nat) (idx : N) : M unit :=
+                    match fuel with
+                    | O => fun _ => RFuel
+                    | Datatypes.S f =>
+                        do s <- iterator_step self it nx;;
+                        match s with
+                        | None => ret tt
+                        | Some next =>
+                            do _ <- closing_on_throw self it
+                                      (do np <- o_call self presolve tv [next];;
+                                       if race then do _ <- invoke_then np [fst fns; snd fns];; ret tt
+                                       else
+                                         do _ <- create_data_prop vals (KStr (n_to_str idx)) VUndef;;
+                                         do fl <- new_flag;;
+                                         do re <- internal_fn NPromiseAllResolveElement [VNum (of_Z (Z.of_N idx)); VObj vals; VObj cnt; fst fns; VObj fl] 1;;
+                                         do co <- the_obj cnt;;
+                                         let n := match find_prop (KStr (S "n")) (o_props co) with Some (PData (VNum x) _ _ _) => trunc_Z x | _ => 0%Z end in
+                                         do _ <- put_obj cnt (with_props co [(KStr (S "n"), data (VNum (of_Z (n + 1))))]);;
+                                         do _ <- invoke_then np [re; snd fns];; ret tt);;
+                            go f (idx + 1)%N
+                        end
+                    end) LOOP_FUEL 0%N;;
+         if race then ret (VObj (snd pp)) else
+         do co <- the_obj cnt;;
+         let n := match find_prop (KStr (S "n")) (o_props co) with Some (PData (VNum x) _ _ _) => trunc_Z x | _ => 0%Z end in
+         do _ <- put_obj cnt (with_props co [(KStr (S "n"), data (VNum (of_Z (n - 1))))]);;
+         do _ <- (if (n - 1 =? 0)%Z then do _ <- o_call self (fst fns) VUndef [VObj vals];; ret tt else ret tt);;
+         ret (VObj (snd pp)))
+        reject_with
+  | _ => type_error
   end.
 
 Definition native_call (n : native) (cap : list value) (tv : value) (args : list value) (newtarget : value) : M value :=
@@ -600,6 +665,100 @@ Definition native_call (n : native) (cap : list value) (tv : value) (args : list
       | _ => type_error
       end
   | NGlobalThisGetter => ret (VObj L_Global)
+  | NPromise =>
+      match newtarget with
+      | VUndef => type_error
+      | _ =>
+          let ex := arg 0 args in
+          do st <- get_state;;
+          if negb (is_callable st ex) then type_error else
+          do proto <- (match newtarget with
+                       | VObj nl => do pv <- o_get self nl (KStr s_prototype) newtarget;;
+                                    match pv with VObj pl => ret pl | _ => ret L_PromiseProto end
+                       | _ => ret L_PromiseProto end);;
+          do pp <- new_promise proto;;
+          do fns <- create_resolving (fst pp);;
+          do _ <- catchm (do _ <- o_call self ex VUndef [fst fns; snd fns];; ret tt)
+                         (fun e => do _ <- o_call self (snd fns) VUndef [e];; ret tt);;
+          ret (VObj (snd pp))
+      end
+  | NPromiseResolveFn =>
+      match cap with
+      | [pv; VObj fl] =>
+          do was <- test_and_set_flag fl;;
+          if was then ret VUndef else do _ <- resolve_promise self (val_pid pv) (arg 0 args);; ret VUndef
+      | _ => unsupported 988%N
+      end
+  | NPromiseRejectFn =>
+      match cap with
+      | [pv; VObj fl] =>
+          do was <- test_and_set_flag fl;;
+          if was then ret VUndef else do _ <- reject_promise (val_pid pv) (arg 0 args);; ret VUndef
+      | _ => unsupported 988%N
+      end
+  | NPromiseResolve =>
+      match tv with
+      | VObj cl => if Pos.eqb cl L_Promise then do pid <- promise_resolve self (arg 0 args);; promise_obj pid else unsupported 986%N
+      | _ => type_error
+      end
+  | NPromiseReject =>
+      match tv with
+      | VObj cl => if Pos.eqb cl L_Promise then
+                     do pp <- new_promise L_PromiseProto;; do _ <- reject_promise (fst pp) (arg 0 args);; ret (VObj (snd pp))
+                   else unsupported 986%N
+      | _ => type_error
+      end
+  | NPromiseProtoThen =>
+      do st <- get_state;;
+      match promise_of_value st tv, tv with
+      | Some pid, VObj l =>
+          do _ <- promise_species l tv;;
+          do dp <- new_promise L_PromiseProto;;
+          do st1 <- get_state;;
+          do _ <- perform_then pid (Reaction (Some (fst dp)) (callable_or_undef st1 (arg 0 args)) false 0%N)
+                                   (Reaction (Some (fst dp)) (callable_or_undef st1 (arg 1 args)) true 0%N);;
+          ret (VObj (snd dp))
+      | _, _ => type_error
+      end
+  | NPromiseProtoCatch => invoke_then tv [VUndef; arg 0 args]
+  | NPromiseProtoFinally =>
+      match tv with
+      | VObj l =>
+          do _ <- promise_species l tv;;
+          let onf := arg 0 args in
+          do st <- get_state;;
+          if negb (is_callable st onf) then invoke_then tv [onf; onf] else
+          do tf <- internal_fn NThenFinally [onf] 1;;
+          do cf <- internal_fn NCatchFinally [onf] 1;;
+          invoke_then tv [tf; cf]
+      | _ => type_error
+      end
+  | NThenFinally | NCatchFinally =>
+      match cap with
+      | [onf] =>
+          do r <- o_call self onf VUndef [];;
+          do pid <- promise_resolve self r;;
+          do po <- promise_obj pid;;
+          do k <- internal_fn (match n with NThenFinally => NValueThunk | _ => NThrower end) [arg 0 args] 0;;
+          invoke_then po [k]
+      | _ => unsupported 988%N
+      end
+  | NValueThunk => ret (arg 0 cap)
+  | NThrower => throwv (arg 0 cap)
+  | NPromiseAll => promise_combinator false tv (arg 0 args)
+  | NPromiseRace => promise_combinator true tv (arg 0 args)
+  | NPromiseAllResolveElement =>
+      match cap with
+      | [VNum idx; VObj vals; VObj cnt; resolvefn; VObj fl] =>
+          do was <- test_and_set_flag fl;;
+          if was then ret VUndef else
+          do _ <- create_data_prop vals (KStr (n_to_str (Z.to_N (trunc_Z idx)))) (arg 0 args);;
+          do co <- the_obj cnt;;
+          let m := match find_prop (KStr (S "n")) (o_props co) with Some (PData (VNum x) _ _ _) => trunc_Z x | _ => 0%Z end in
+          do _ <- put_obj cnt (with_props co [(KStr (S "n"), data (VNum (of_Z (m - 1))))]);;
+          if (m - 1 =? 0)%Z then do _ <- o_call self resolvefn VUndef [VObj vals];; ret VUndef else ret VUndef
+      | _ => unsupported 988%N
+      end
   | _ => unsupported 981%N
   end.
 
